@@ -525,8 +525,10 @@ def run_e1(prop, tier, seed, modules, rule, bounds, assumptions, need_stubbing=F
     harness_timeout = harness_timeout or (120 if tier == 'quick' else 600)
     tag = f'{prop.lower()}{crate_tag}'
     d = os.path.join(WORK, f'{tag}_{tier}_{os.getpid()}')
-    if os.path.exists(d):
-        shutil.rmtree(d)
+    os.makedirs(WORK, exist_ok=True)
+    for old in os.listdir(WORK):
+        if old.startswith(f'{tag}_{tier}_') and os.path.isdir(os.path.join(WORK, old)):
+            shutil.rmtree(os.path.join(WORK, old), ignore_errors=True)
     os.makedirs(d)
     target_dir = os.path.join(WORK, 'target-kani-' + tag)
     log = os.path.join(WORK, f'{tag}_{tier}.log')
